@@ -306,6 +306,9 @@ def run(rep, proj, tier):
                         "the RGE derivation in this module's docstring"]
     rep.assumptions = ["rows of quarks that are massive in the scheme receive contributions from intrinsic kernels only",
                        "heavy coefficient functions folded above threshold"]
+    from . import state
+
+    state.check(rep, proj, "C05.state", module_filter=lambda m: m.name.startswith(('yadism.esf.scale_variations', 'yadism.coefficient_functions.splitting_functions')), floor=1)
     nlab = check_labels(rep, proj)
     rep.floor("splitting labels", nlab, 10)
     js = jobs(tier)
